@@ -8,6 +8,9 @@ CONSTANTS MaxItems = 3
  Budget = 2
  IdOffs <- IdOffs3
  Rules = {"assume", "implies_intr", "substitution", "sorry", ""}
+ ArgKinds = {}
+ ArityOffs <- ArityOffs1
+ MaxAlias = 0
  Emit = TRUE
 INVARIANT RefSound
 INVARIANT RefGapFree
